@@ -704,6 +704,11 @@ def run(ctx):
             if ctx.model_ok:
                 from vh import core
                 sample = [wire_case(norm_case(c)) for c in ss[::max(1, len(ss) // 250)]][:280]
+                # a clean rebuild (thorough tier) only rebuilds the cone of Props/C05.vo; Dispatch.vo needs every model
+                with core.BuildLock():
+                    vos = [x[:-2] + '.vo' for x in core.coq_sources() if x.startswith(('Base/', 'Gen/', 'Model/'))]
+                    core.sh('timeout 1500 make -j4 ' + ' '.join(vos), cwd=core.COQ, timeout=1600)
+                    core.sh('timeout 600 coqc -Q . KV Extract/Dispatch.v', cwd=core.COQ, timeout=700)
                 a = core.run_model_in_coq(sample, 'c05')
                 b = ctx.model(sample)
                 ctx.extra['extraction_crosscheck_cases'] = len(sample)
